@@ -91,7 +91,7 @@ def main():
         # skip the scenario that spawns 8 interpreters (C18 index 0): covered by its own repetition oracle
         idxs = [i for i in range(1 if pid == "C18" else 0, 4000, max(1, 4000 // n))][:n]
         if pid == "C01":
-            idxs = idxs[: n // 2] + list(range(1200, 1200 + n // 2))
+            idxs = idxs[: n // 2] + list(range(1201, 1201 + n // 2))
         scs = scenarios(check, idxs)
         gen = {i: hashlib.sha256(harness.jdump(sc).encode()).hexdigest()[:16] for i, sc in zip(idxs, scs)}
         runs = {}
